@@ -51,23 +51,53 @@ func (fs *RepositoryFilesystem) mapToRepositoryFsByPath(path string) billy.Files
 		return fs.dotGitFs
 	}
 
-	// Check exceptions for commondir (https://git-scm.com/docs/gitrepository-layout#Documentation/gitrepository-layout.txt)
-	switch cleanPath {
-	case fs.dotGitFs.Join(logsPath, "HEAD"):
-		return fs.dotGitFs
-	case fs.dotGitFs.Join(refsPath, "bisect"), fs.dotGitFs.Join(refsPath, "rewritten"), fs.dotGitFs.Join(refsPath, "worktree"):
-		return fs.dotGitFs
+	if isCommonDirPath(filepath.ToSlash(cleanPath)) {
+		return fs.commonDotGitFs
+	}
+	return fs.dotGitFs
+}
+
+// perWorktreePaths are the entries below the shared directories info, logs
+// and refs that git keeps in the worktree's own git dir (path.c common_list).
+var perWorktreePaths = []string{
+	"info/sparse-checkout",
+	"logs/HEAD",
+	"logs/refs/bisect", "logs/refs/rewritten", "logs/refs/worktree",
+	"refs/bisect", "refs/rewritten", "refs/worktree",
+}
+
+// isCommonDirPath reports whether a clean, slash-separated path relative to
+// the git dir belongs to $GIT_COMMON_DIR. It follows git's common_list and
+// update_common_dir (path.c): a trailing ".lock" is ignored, the per-worktree
+// exceptions win over the shared directory that contains them, and the shared
+// files only match exactly.
+func isCommonDirPath(p string) bool {
+	p = strings.TrimSuffix(p, ".lock")
+
+	// Temporary files for a new packed-refs (created in the git dir or in
+	// billy's ".tmp" directory) must live in the same filesystem as
+	// packed-refs itself, otherwise the final rename leaves the new file in
+	// the worktree's git dir.
+	if strings.HasPrefix(p[strings.LastIndexByte(p, '/')+1:], tmpPackedRefsPrefix) {
+		return true
 	}
 
-	// Determine dot-git root by first path element.
-	// There are some elements which should always use commondir when commondir defined.
-	// Usual dot-git root will be used for the rest of files.
-	switch strings.Split(cleanPath, string(filepath.Separator))[0] {
-	case objectsPath, refsPath, packedRefsPath, configPath, branchesPath, hooksPath, infoPath, remotesPath, logsPath, shallowPath, worktreesPath:
-		return fs.commonDotGitFs
-	default:
-		return fs.dotGitFs
+	for _, e := range perWorktreePaths {
+		if p == e || strings.HasPrefix(p, e+"/") {
+			return false
+		}
 	}
+
+	first, _, nested := strings.Cut(p, "/")
+	switch first {
+	case objectsPath, refsPath, branchesPath, hooksPath, infoPath, remotesPath, logsPath, worktreesPath,
+		"common", "lost-found", "rr-cache", "svn":
+		return true
+	case packedRefsPath, configPath, shallowPath, "gc.pid":
+		return !nested
+	}
+
+	return false
 }
 
 // Create creates a file in the appropriate filesystem.
@@ -107,7 +137,9 @@ func (fs *RepositoryFilesystem) Join(elem ...string) string {
 
 // TempFile creates a temporary file in the appropriate filesystem.
 func (fs *RepositoryFilesystem) TempFile(dir, prefix string) (billy.File, error) {
-	return fs.mapToRepositoryFsByPath(dir).TempFile(dir, prefix)
+	// Route by the name the file is going to have, not only by its directory:
+	// dir is "" for files living directly in the git dir.
+	return fs.mapToRepositoryFsByPath(fs.Join(dir, prefix)).TempFile(dir, prefix)
 }
 
 // ReadDir reads a directory from the appropriate filesystem.
